@@ -9,6 +9,7 @@ mod c05;
 mod c09;
 mod c06;
 mod c07;
+mod c12;
 mod c13;
 mod c14;
 mod c15;
@@ -55,6 +56,7 @@ fn main() {
         "c04" => c04::run(&o, deck),
         "c05" => c05::run(&o, deck),
         "c06" => c06::run(&o, deck),
+        "c12" => c12::run(&o, deck),
         "c13" => c13::run(&o, deck),
         "c14" => c14::run(&o, deck),
         "c07" => c07::run(&o, deck),
